@@ -20,14 +20,18 @@
    path pointAtTime / lengthAtTime return Ok for every t in [0,1] including 1.0 on a non-empty path.
    REFUTED.  STRICT increase of the regular-sampling parameters is false of the faithful float model: a path with one
    dominant segment (lengths 46,1,1,1,1; n = 12 <= 50/4) returns the same parameter twice (C16_regular_not_strict_refuted).
-   NOT covered by a theorem: lengthAtTime non-decreasing in t up to 2% and the spacing clause (arc gaps = length/n within
-   5% + two lookup steps) -- both rest on the accuracy of the 24-point quadrature (C04's unproved clause); termination and
+   ACCURACY OF lengthAtTime (Proofs/C16acc.v, from the quadrature accuracy theorem of Proofs/C04acc.v): for a cubic or quadratic whose speed stays
+   within a factor 2, lengthAtTime t is within 2e-4 of the exact arc length over [0,t]; between two parameters it increases by the true arc
+   length between them (at least m (t2 - t1)) minus at most 4e-4 of the curve's length: non-decreasing up to that tolerance.
+   NOT covered by a theorem: the same for curves whose speed varies by more than a factor 2, and the spacing clause (arc gaps = length/n within
+   5% + two lookup steps), which rests on the look-up table as well; termination and
    absence of exceptions in FLOAT arithmetic (exercised bit-exactly by the correspondence, not proved). *)
 
 From Coq Require Import PrimFloat.
 From Coq Require Import ZArith List Bool Reals Lra Permutation Sorted.
 From BZ Require Import Base.Ops Gen.Point Gen.Line Gen.Quad Gen.Cubic Gen.Sample Hand.Sample Proofs.C16 Proofs.C16cont Proofs.Bridge2.
 Import ListNotations.
+From BZ Require Proofs.C04 Proofs.C10flat Proofs.C16acc.
 Open Scope R_scope.
 
 Theorem C16_segment_lengthAt_ends :
@@ -98,6 +102,15 @@ Proof. exact @Path_pointAtTime_gen. Qed.
 Theorem C16_Path_lengthAtTime_is_generated :
   forall (T : Type) (O : Ops T), lit_ok O -> forall (segs : list (segment T)) (t : T), res_of_outcome (Path_lengthAtTime O segs t) = path_lengthAtTime O segs t.
 Proof. exact @Path_lengthAtTime_gen. Qed.
+Theorem C16_cubic_lengthAtTime_accuracy :
+  forall (s : seg4 R) (m M t : R), 0 < m -> (forall u : R, 0 <= u <= 1 -> m <= C04.cubic_speed s u <= M) -> M <= 2 * m -> 0 < t <= 1 -> Rabs (Cubic_lengthAtTime ROps s t - C10flat.cubic_arclen s 0 t) <= 2 / 10 ^ 4 * C10flat.cubic_arclen s 0 t.
+Proof. exact @C16acc.cubic_lengthAtTime_accuracy. Qed.
+Theorem C16_quad_lengthAtTime_accuracy :
+  forall (s : seg3 R) (m M t : R), 0 < m -> (forall u : R, 0 <= u <= 1 -> m <= C04.quad_speed s u <= M) -> M <= 2 * m -> 0 < t <= 1 -> Rabs (Quad_lengthAtTime ROps s t - C10flat.quad_arclen s 0 t) <= 2 / 10 ^ 4 * C10flat.quad_arclen s 0 t.
+Proof. exact @C16acc.quad_lengthAtTime_accuracy. Qed.
+Theorem C16_cubic_lengthAtTime_increase :
+  forall (s : seg4 R) (m M t1 t2 : R), 0 < m -> (forall u : R, 0 <= u <= 1 -> m <= C04.cubic_speed s u <= M) -> M <= 2 * m -> 0 < t1 <= t2 -> t2 <= 1 -> Cubic_lengthAtTime ROps s t2 - Cubic_lengthAtTime ROps s t1 >= C10flat.cubic_arclen s t1 t2 - 4 / 10 ^ 4 * C10flat.cubic_arclen s 0 1 /\ C10flat.cubic_arclen s t1 t2 >= m * (t2 - t1).
+Proof. exact @C16acc.cubic_lengthAtTime_increase. Qed.
 
 Print Assumptions C16_segment_lengthAt_ends.
 Print Assumptions C16_path_lengthAt_ends.
@@ -121,3 +134,6 @@ Print Assumptions C16_Line_regularSampleTValue_is_generated.
 Print Assumptions C16_Path_length_is_generated.
 Print Assumptions C16_Path_pointAtTime_is_generated.
 Print Assumptions C16_Path_lengthAtTime_is_generated.
+Print Assumptions C16_cubic_lengthAtTime_accuracy.
+Print Assumptions C16_quad_lengthAtTime_accuracy.
+Print Assumptions C16_cubic_lengthAtTime_increase.
